@@ -7,6 +7,8 @@ from . import asp as A
 from . import bridge as bridge_mod
 from . import driver
 from .c01 import SENT, SHIFT, abstract_numerals, side_conditions, S1, S2
+from . import cliagree
+from .c01 import CLI_PROGRAMS
 from .checks_common import generic_replay
 from .fol import text as ftext
 from .sem import Ctx, fol_preds, fol_size, free_vars
@@ -103,11 +105,16 @@ def generate(tier, seed):
             add('fresh-N-names', A.rule(A.atom('p', T2, n0), [A.atom('q', n0, n1)]))
             add('fresh-N-names', A.rule(A.atom('p', n1, T2), [A.atom('q', A.tt and ('add', n0, A.N(S2)), n1)]))
             add('fresh-N-names', A.rule(A.choice(A.atom('p', T2, T2)), [A.atom('q', n0, n1)]))
+    for prog in CLI_PROGRAMS + ['p :- not not p.', 'p(X + 1) :- q(X), not not p(X + 1).', '{p(1..3)}.', 'p(1..2, 1..2).']:
+        items.append({'family': 'cli-agreement', 'program': prog, 'cli': True})
     return items
 
 
 def check_item(item):
     b = bridge_mod.get()
+    if item.get('cli'):
+        rs = [cliagree.translate(b, item['family'], item['program'], item['program'], how) for how in ('natural', 'mu')]
+        return [r for r in rs if r]
     prog = item['program']
     sent = list(item.get('sentinels') or [])
     base = {'family': item['family'], 'input_key': prog, 'twin': item.get('twin', False)}
@@ -228,7 +235,7 @@ def replay(r):
 
 def describe(tier):
     return {
-        'rule': 'rules built from 15 skeletons (variables inside and outside arithmetic, intervals in basic and choice heads '
+        'rule': 'CLI agreement: 16 programs through `anthem translate --with natural|mu` must print/save byte for byte what the library call returns; rules built from 15 skeletons (variables inside and outside arithmetic, intervals in basic and choice heads '
                 'and on either side of `=`, symbols/#inf/#sup next to arithmetic, unary minus) with a term of depth <=1 '
                 '(exhaustive) or 2 (seeded) over + - * .. / ; head/body variables named like the fresh N<i> variables; '
                 'hand-written rules; for every rule one obligation per translation that returns a formula (natural when '
